@@ -16,6 +16,18 @@ CHECKS = {
         "components": {"real": REAL, "stub": STUB_SCHED + ["hint function under fault", "entropy source under fault (error / short read at draw k)"]},
         "assumptions": ["completeness is explored for the circuit shapes the generator reaches (straight-line programs, 0-2 commitments, lookups, range checks, hints, wide levels)", "bounded liveness is measured in scheduling steps against the fault-free run of the same configuration (3x + 5000)"],
     },
+    "C11": {
+        "engine": "c11",
+        "level": "exploration",
+        "rule": "one evaluation = one recompilation compared byte-for-byte with the reference compilation of the same circuit; a case = (builder, curve, generated circuit incl. "
+                "hints/commitments/lookups/range checks/emulated mul/wire-constraint queries, variant in {map permutation, capacity hint, after other compilations, concurrent under the scheduler, key reuse}); "
+                "plus cross-process comparison of the reference bytes between workers",
+        "quick": {"runs": 1280, "budget_s": 200, "selftest_runs": 6, "params": {"slots": 64}},
+        "thorough": {"runs": 40000, "budget_s": 2400, "race_runs": 1200, "race_budget_s": 900, "selftest_runs": 8, "params": {"slots": 128}},
+        "expect_probes": ["mode:map-permutation", "mode:concurrent", "mode:keys-reuse", "wire_query_circuit", "emulated_circuit", "map_order_permuted", "capacity_hint"],
+        "components": {"real": REAL, "stub": STUB_SCHED},
+        "assumptions": ["map iterations over pointer-keyed maps keep the runtime's order (counted as unseamed); they are exercised only through repeated and cross-process compilation", "same Go version and architecture for all compilations"],
+    },
     "C06": {
         "engine": "c06",
         "level": "exploration",
